@@ -91,6 +91,8 @@ type endState struct {
 	bracket     int
 	werrHits    int
 	smallReads  int // cap every Read to this many bytes when > 0
+	holdWrites  bool // Write calls of this side block (before looking at the caller's bytes) until released
+	held        int  // Write calls currently blocked that way
 	maxReadSeen int
 	timer       *time.Timer
 }
@@ -99,6 +101,7 @@ type endState struct {
 type Net struct {
 	mu    sync.Mutex
 	rcond *sync.Cond // readers wait here
+	wcond *sync.Cond // held writers wait here
 	qcond *sync.Cond // quiescence waiters wait here
 
 	free bool
@@ -119,6 +122,7 @@ type Net struct {
 func New() *Net {
 	n := &Net{}
 	n.rcond = sync.NewCond(&n.mu)
+	n.wcond = sync.NewCond(&n.mu)
 	n.qcond = sync.NewCond(&n.mu)
 	for i := 0; i < 2; i++ {
 		n.d[i] = &dirState{rerrAt: -1}
@@ -257,6 +261,14 @@ func (c *Conn) Write(b []byte) (int, error) {
 	defer n.mu.Unlock()
 	e := n.e[c.s]
 	d := n.d[c.s]
+	// a transport write that is blocked (full socket buffer): the caller's
+	// bytes are not looked at before the harness lets the write through
+	for e.holdWrites && !e.closed && !n.e[c.s.Peer()].closed {
+		e.held++
+		n.qcond.Broadcast()
+		n.wcond.Wait()
+		e.held--
+	}
 	if e.closed {
 		return 0, opErr("write", net.ErrClosed)
 	}
@@ -349,6 +361,7 @@ func (c *Conn) Close() error {
 	}
 	n.d[c.s].eof = true
 	n.rcond.Broadcast()
+	n.wcond.Broadcast()
 	n.qcond.Broadcast()
 	return nil
 }
@@ -564,6 +577,39 @@ func (n *Net) SmallReads(s Side, k int) {
 	n.mu.Unlock()
 }
 
+// HoldWrites makes the Write calls of side s block before they look at the
+// caller's bytes (on = true) or lets the blocked and all later ones through
+// (on = false).  Models a send that is blocked on a full socket buffer while
+// the same endpoint keeps reading.
+func (n *Net) HoldWrites(s Side, on bool) {
+	n.mu.Lock()
+	n.e[s].holdWrites = on
+	n.wcond.Broadcast()
+	n.mu.Unlock()
+}
+
+// WaitHeld waits until a Write call of side s is blocked by HoldWrites (true)
+// or d has passed (false).
+func (n *Net) WaitHeld(s Side, d time.Duration) bool {
+	n.mu.Lock()
+	defer n.mu.Unlock()
+	timedOut := false
+	tm := time.AfterFunc(d, func() {
+		n.mu.Lock()
+		timedOut = true
+		n.qcond.Broadcast()
+		n.mu.Unlock()
+	})
+	defer tm.Stop()
+	for n.e[s].held == 0 {
+		if timedOut {
+			return false
+		}
+		n.qcond.Wait()
+	}
+	return true
+}
+
 // Bracket labels the wire writes of side s with id until reset to 0.
 func (n *Net) Bracket(s Side, id int) {
 	n.mu.Lock()
@@ -613,6 +659,7 @@ func (n *Net) Shutdown() {
 	}
 	n.gen++
 	n.rcond.Broadcast()
+	n.wcond.Broadcast()
 	n.qcond.Broadcast()
 }
 
